@@ -256,9 +256,10 @@ sys.modules["verif_flag_module"] = FLAGMOD
 
 
 def directive_case(rng, res, dstream, intern, label):
-  n = rng.randint(1, 7)
+  n = rng.randint(1, 9)
   dirs = []
   names = []
+  containers = {}
   serialized = fdl_flags.FiddleFlagSerializer().serialize(_base(7))
   for i in range(n):
     r = rng.random()
@@ -274,9 +275,23 @@ def directive_case(rng, res, dstream, intern, label):
         dirs.append((serialized, ("config_str",)))
     else:
       q = rng.random()
-      if q < 0.35:
+      if q < 0.2:
         v = rng.randint(1, 9)
         dirs.append((f"set:x={v}", ("set", v)))
+      elif q < 0.33:
+        # container literals (the same text may be written to several leaves) ...
+        name = rng.choice(["lst", "lst2", "dct", "dct2"])
+        text = rng.choice(["[0, 0]", "[1, [2]]"]) if name.startswith("lst") else rng.choice(["{'k': 1}", "{'k': 1, 'j': [0]}"])
+        dirs.append((f"set:{name}={text}", ("setc", name, text)))
+        containers[name] = text
+      elif q < 0.45 and containers:
+        # ... and overrides of single elements of a container written earlier
+        name = rng.choice(sorted(containers))
+        v = rng.randint(10, 19)
+        if name.startswith("lst"):
+          dirs.append((f"set:{name}[0]={v}", ("setel", name, 0, v)))
+        else:
+          dirs.append((f"set:{name}['k']={v}", ("setel", name, "k", v)))
       elif q < 0.55:
         dirs.append(("fiddler:double", ("double",)))
       elif q < 0.8:
@@ -313,6 +328,13 @@ def directive_case(rng, res, dstream, intern, label):
       exp = _base(7)
     elif d[0] == "set":
       exp.x = d[1]
+    elif d[0] == "setc":
+      setattr(exp, d[1], ast.literal_eval(d[2]))     # a fresh object per directive
+    elif d[0] == "setel":
+      if d[1] not in exp.__arguments__:
+        err = "element-of-missing"                    # e.g. after a new base configuration: must be refused
+        break
+      getattr(exp, d[1])[d[2]] = d[3]
     elif d[0] == "double":
       _double(exp)
     elif d[0] == "add":
@@ -334,7 +356,7 @@ def directive_case(rng, res, dstream, intern, label):
       return f"(DConfig {g_N(intern(repr(d)))})"
     if d[0] == "config_str":
       return f"(DConfigStr {g_N(intern(repr(d)))})"
-    if d[0] == "set":
+    if d[0] in ("set", "setc", "setel"):
       return f"(DSet {g_N(intern(repr(d)))})"
     return f"(DFiddler {g_N(intern(repr(d)))})"
   if outcome[0] == "ok":
@@ -348,7 +370,7 @@ def directive_case(rng, res, dstream, intern, label):
         want_log = [("base2",)]
       elif d[0] == "config_str":
         want_log = [("base", 7)]
-      elif d[0] != "set":
+      elif d[0] not in ("set", "setc", "setel"):
         want_log.append(d)
     if [tuple(x) for x in outcome[1].log] != want_log:
       res.failures.append(Failure(None, f"C18 {label}: fiddler log out of order", replay))
